@@ -22,6 +22,22 @@ CLAIMED = {
    text="Bounded symbolic model checking of one step of the real mutation primitives from an arbitrary state: the MIR of LexicalScope::{define,get,get_mut,set} is executed from an arbitrary frame forest (every (frame,name) presence bit and value symbolic; chain plus a sibling sharing the root), and z3 decides that set! overwrites exactly the innermost defining cell and nothing else, define touches only its own frame, lookup returns a reference to the innermost cell, unbound => UnboundedSymbol with no change. For vectors the MIR of vector-set!, vector-ref, vector-length, make-vector, vector, ValueReference::{as_ref,as_mut} and the derived Value/ValueReference clone is executed with symbolic length, index (all i32), object and mutability; aliases made by Value::clone and by storing in / fetching from another vector observe the write at k and only there, distinct vectors never, literals reject mutation, bad indices (negative included) are errors that change nothing. One inductive step from an arbitrary state covers histories of any length, which sampled histories cannot.",
    note="Trusted: rustc MIR semantics; the HashMap, RefCell, Rc, Vec models (std is modelled, not verified; borrow flags and reference counts not modelled); z3. Bounds: 4 frames x 2 names (quick), 4 frames x 3 names and a 4-deep chain (thorough); vectors of length <= 3 / 5; elements are integers (the operations never inspect elements). That the evaluator uses these primitives correctly in whole programs (set! -> set, argument passing -> clone, a fresh frame per call) is only covered at skeleton level by C01/C02.",
    ref="DESIGN.md section 4 (C03)"),
+ "C08": dict(
+   text="Bounded symbolic model checking of the error-detecting code. (1) Arity in every calling context: the MIR of Interpreter::apply_procedure is executed for 3/4 trampoline iterations from an arbitrary procedure and argument vector with its callees replaced by logging stubs; z3 decides that EVERY entry into a procedure body (user or builtin, first or later iteration - i.e. direct, tail, apply, library calls alike) is dominated by an argument-count check of that procedure against those arguments, and that ArgumentMissMatch is returned only for a misfit. (2) Classification: Value::expect_* over an arbitrary Value; 21 builtins over argument vectors of arbitrary variants (a value is returned only if every argument has the demanded type); eval_expression's non-procedure operator and unbound-variable arms; the binding loop cannot fail once the count fits. (3) Vector bounds, literal mutation, assignment to an unbound variable and exact division by zero: the same obligations as C03/C09, re-run here.",
+   note="Trusted: rustc MIR semantics, the std models, z3; stubs return every value of their type (a counterexample through a stub is replayed as a real Scheme program before it is reported). Bounds: 3/4 trampoline iterations (iteration >= 2 starts from an arbitrary state), argument vectors of <= 4 (arity) / <= 3 (types) values, vectors <= 3/5. 'Divides by exact zero' = divisor exact zero in exact arithmetic. Whole-program clauses (interpreter stays usable, effects before the error are kept) are outside.",
+   ref="DESIGN.md section 4 (C08)"),
+ "C02": dict(
+   text="Mechanism-level bounded symbolic model checking: (1) eval_tail_expression over an ARBITRARY expression (lazy symbolic AST, conditionals nested <= 3/4) with eval_expression stubbed: a call at the end of the tail spine is returned as a pending TailCall carrying that operator, operands and environment, having evaluated only the tests on the spine, each once, only #f selecting the alternative; (2) apply_scheme_procedure sends the last body expression, and only it, to eval_tail_expression; (3) one arbitrary trampoline iteration of apply_procedure either finishes or re-binds procedure/arguments from the returned tail call and never re-enters the evaluator - so the Rust stack depth at the loop head is iteration-independent, for any N by induction; (4) the native apply builtin (known finding: it enters the procedure through a nested apply_procedure).",
+   note="The property's observable (machine stack, live heap, any N) is not a solver variable: this claim is 'the trampoline cannot silently become recursive and tail positions return calls unevaluated', no more. Outside: derived forms keeping tail position (needs the expander on grammar.sld), heap retention (drops not modelled), the measurement itself. Structural counterexamples are confirmed by native loops of 200000 iterations before they are reported.",
+   ref="DESIGN.md section 4 (C02)"),
+ "C14": dict(
+   text="Mechanism-level bounded symbolic model checking of the import bookkeeping: the MIR of Interpreter::eval_import_set (a library name bare and wrapped in only/except/prefix/rename, two levels in thorough) is executed from an ARBITRARY in-progress set with get_library stubbed (any Ok, any Err); z3 decides (a) the set is restored on every exit - Ok, underlying error, cyclic error -, (b) the cyclic error is returned iff the name was in progress on entry and then no load is attempted, (c) the name is in progress while it loads, and the underlying error is passed on unchanged. (a) is the invariant that makes an import's outcome independent of earlier attempts and failures; (b)+(c) give 'cyclic iff a cycle is reachable' by induction over get_library's call tree (argued in DESIGN.md).",
+   note="Trusted: rustc MIR semantics, the HashSet model, z3. Outside: termination for arbitrary graphs as a whole-program fact, file lookup relative to the program directory, unreadable/malformed files (filesystem). Structural counterexamples are confirmed by native import-graph probes (retry after failure, 1/2/3-cycles incl. cycles through import sets, diamonds, repeated imports, missing dependencies).",
+   ref="DESIGN.md section 4 (C14)"),
+ "C01": dict(
+   text="Mechanism-level bounded symbolic model checking of ONE structural-induction step of the evaluator: the MIR of eval_expression is executed on an arbitrary Expression node of every kind with its recursive calls, apply_procedure and environment access replaced by logging stubs; z3 decides for every path that operator and operands are evaluated exactly once, operator first, operands left to right, in the same environment, followed by exactly one application to exactly those values (non-procedure operator => located TypeMisMatch; first error wins); that only #f selects the alternative and exactly one arm is evaluated; Symbol => lookup / located UnboundedSymbol; Assignment => value once, then set; lambda => closure over this environment; literals unevaluated. apply_scheme_procedure: i-th formal bound to i-th argument, rest formal to the remaining ones in order, in a fresh child frame of the closure's frame; internal definitions in order before the body and visible to all of it; body in order, last in tail position. Native apply: leading arguments then the list's elements, one application.",
+   note="These are the induction steps of 'evaluation yields the value the rules assign'; the induction over programs (and termination) is an argument, not machine-checked. The parser's side (define sugar, formals parsing), the abstract parameter list (ParameterFormals::iter_to_last/len/as_name stubbed consistently) and GenericPair's iterators are outside. Structural counterexamples are confirmed by native evaluator probes before they are reported.",
+   ref="DESIGN.md section 4 (C01)"),
 }
 NA = {}
 def main():
@@ -56,6 +72,8 @@ def main():
     json.dump(m, open(os.path.join(V, "MANIFEST.json"), "w"), indent=1)
 SOURCE_COMMITS = ["8a1fb00 fix: floor and ceiling of a ratio round in the right direction for every sign combination",
                   "1b29fe7 fix: compare ratios correctly when their denominators have opposite signs",
-                  "4663384 fix: REPL bracket counter follows the reader's lexical structure"]
+                  "4663384 fix: REPL bracket counter follows the reader's lexical structure",
+                  "3eab4e1 fix: check the argument count of every procedure the trampoline enters",
+                  "165af0a fix: a failed import no longer leaves the library marked as being imported"]
 if __name__ == "__main__":
     main()
